@@ -164,8 +164,15 @@ func (s *triplestore) adjacent(node uint64, direction graph.Direction) cardinali
 				nodes.Add(edge.Start)
 
 			default:
-				nodes.Add(edge.End)
-				nodes.Add(edge.Start)
+				// Both directions: the adjacent node is the other endpoint. The node itself is adjacent only through
+				// a self loop.
+				if edge.Start == node {
+					nodes.Add(edge.End)
+				}
+
+				if edge.End == node {
+					nodes.Add(edge.Start)
+				}
 			}
 		}
 
@@ -291,6 +298,11 @@ func (s *triplestoreProjection) EachAdjacentEdge(node uint64, direction graph.Di
 
 func (s *triplestoreProjection) EachAdjacentNode(node uint64, direction graph.Direction, delegate func(adjacent uint64) bool) {
 	s.EachAdjacentEdge(node, direction, func(next Edge) bool {
+		if direction == graph.DirectionBoth && next.Start == node {
+			// Pick resolves DirectionBoth to the start of the edge, which is the node itself for its outbound edges
+			return delegate(next.End)
+		}
+
 		return delegate(next.Pick(direction))
 	})
 }
